@@ -94,6 +94,9 @@ PROBES = {
         matches("attr", "Hash", "struct X { #[ord(bound(..))] #[eq(bound(..))] #[hash(bound(..))] a: u8 }", NO_HELPER, False, "item0"),
         matches("attr", "Eq, PartialEq", "struct X { #[ord(bound(..))] #[eq(bound(..))] #[partial_eq(bound(..))] a: u8 }", NO_HELPER, False, "item0"),
         matches("attr", "Debug", "struct X { #[default(1)] a: u8 }", r"# \[default \(1\)\]", True, "item0"),
+        # a dumped trait still owns its helper attributes
+        matches("attr", "Debug(dump), Clone", "struct X { #[debug(ignore)] a: u8 }", NO_HELPER, False, "item0"),
+        matches("attr", "Clone, Default, dump", "enum X { #[default] A }", NO_HELPER, False, "item0"),
     ],
     # ---- C17: the Eq assertion -------------------------------------------------------------------------------------------------------
     "C17.helper": [
